@@ -254,6 +254,9 @@ def step (d : DState) (line : String) : DState × List String :=
   | "exec" :: "omptsm" :: ts =>
     let cs := executeTsm d.treeS d.treeT d.periodic (kv ts "flags" 63) (kv ts "upper" 2) true
     ({ d with st := applyCalls (if d.wide then weightWide else weight) (d.H - 1) d.treeT.partsOf d.treeS.partsOf d.st cs }, cs.map printCall)
+  | "exec" :: "specxtsm" :: ts =>
+    let cs := executeTsm d.treeS d.treeT d.periodic (kv ts "flags" 63) (kv ts "upper" 2) true
+    ({ d with st := applyCalls (if d.wide then weightWide else weight) (d.H - 1) d.treeT.partsOf d.treeS.partsOf d.st cs }, cs.map printCall)
   | "exec" :: "starputsm" :: ts =>
     let cs := executeTsm d.treeS d.treeT d.periodic (kv ts "flags" 63) (kv ts "upper" 2) true
     ({ d with st := applyCalls (if d.wide then weightWide else weight) (d.H - 1) d.treeT.partsOf d.treeS.partsOf d.st cs }, cs.map printCall)
@@ -392,6 +395,10 @@ def step (d : DState) (line : String) : DState × List String :=
     let st4 := applyCalls (if d.wide then weightWide else weight) (d.H - 1) po po st3 c3
     ({ d with st := st4 }, (c1.map printCall) ++ (top.map printTopCall) ++ (c2.map printCall) ++ (c3.map printCall))
   | "exec" :: "omp" :: ts =>
+    let cs := executeOmp d.tree d.periodic (kv ts "flags" 63) (kv ts "upper" 2)
+    let po := d.tree.partsOf
+    ({ d with st := applyCalls (if d.wide then weightWide else weight) (d.H - 1) po po d.st cs }, cs.map printCall)
+  | "exec" :: "specx" :: ts =>       -- the Specx executor submits in the same order as the OpenMP one
     let cs := executeOmp d.tree d.periodic (kv ts "flags" 63) (kv ts "upper" 2)
     let po := d.tree.partsOf
     ({ d with st := applyCalls (if d.wide then weightWide else weight) (d.H - 1) po po d.st cs }, cs.map printCall)
